@@ -19,7 +19,7 @@ def make_hooks(contract, cfg):
     hooks = {}
     for t in contract.use:
         callee = REGISTRY[t]
-        fn = raw_function(t)
+        fn = raw_function(callee.target)
 
         def handler(ip, args, kwargs, callee=callee, fn=fn):
             return callee.call_site(ip, fn, args, kwargs)
@@ -106,6 +106,7 @@ def run_unit(target, cfg, tier='quick', findings=()):
         return res
     res['paths'] = len(paths)
     base = '%s[%s]' % (target, res['cfg'])
+    res['function'] = contract.target
     for pi, (ctx, (kind, payload)) in enumerate(paths):
         try:
             _path_obligations(contract, cfg, ctx, kind, payload, pi, base, res, tier, findings)
